@@ -123,8 +123,12 @@ def hyp_run(body: Callable[[Any], None], strategy, n_distinct: int, seedv: int, 
     whole case) have been passed to body; body records failures itself. Hypothesis' generate phase spends most
     of its calls on span-duplicating mutations of earlier examples, which mostly reproduce the same case: those
     are skipped (and counted as 'hypothesis-duplicate')."""
-    from hypothesis import HealthCheck, Phase, Verbosity, given, seed as hseed, settings
+    import warnings
 
+    from hypothesis import HealthCheck, Phase, Verbosity, given, seed as hseed, settings
+    from hypothesis.errors import HypothesisWarning
+
+    warnings.simplefilter("ignore", HypothesisWarning)
     seen = set()
     state = {"stop": False}
     keyf = key or (lambda c: c)
